@@ -315,11 +315,11 @@ class Folder(FileSystemItemABC):
             self.sys_log.error(f"Unable to restore file {file_name}. File does not exist.")
             return False
 
-        file.restore()
-        self.files[file.uuid] = file
-
         if file.deleted:
             self.deleted_files.pop(file.uuid)
+
+        file.restore()
+        self.files[file.uuid] = file
         return True
 
     def quarantine(self):
